@@ -8,7 +8,7 @@
    decided by the differential runs (model vs binary, and binary vs binary on the truncated series). *)
 From Coq Require Import List ZArith NArith Bool.
 Import ListNotations.
-From RQ Require Import Base Apply Parser Quilt QuiltProofs ParserWf TreeRollback.
+From RQ Require Import Base Apply Parser Quilt QuiltProofs ParserWf TreeRollback SavedTree.
 
 Theorem C05_stops_at_first_failure :
   forall cfg db series st idx fs fs' st' n rejs,
@@ -71,3 +71,19 @@ Theorem C05_early_error_touches_nothing :
   forall cfg db g, early_clean (cmd_push cfg db g).
 Proof. exact push_early_error_writes_nothing. Qed.
 Print Assumptions C05_early_error_touches_nothing.
+
+(* the save phase: the tree afterwards is the starting tree overridden by the overlay - and the overlay is the
+   in-memory state after exactly the patches that applied (C05_stops_at_first_failure,
+   C05_failing_patch_leaves_the_stack) *)
+Theorem C05_saved_tree_is_start_plus_overlay :
+  forall cfg db series fs fs1 st n rejs dm cl fs2 cl',
+  is_file fs [] = false ->
+  apply_series cfg db {| a_applied := []; a_files := [] |} 0 series fs = (fs1, ROk (st, n, rejs)) ->
+  NoDup (map nkey (a_files st)) ->
+  save_all dm (a_files st) cl fs1 = (fs2, ROk cl') ->
+  (forall k m, In (k, m) (a_files st) ->
+     if deleted m then is_file fs2 (normalize k) = false
+     else exists md, lookup_file (normalize k) (fs_files fs2) = Some {| f_data := concat_lines (content m); f_mode := md |}) /\
+  (forall q, ~ In q (map nkey (a_files st)) -> lookup_file q (fs_files fs2) = lookup_file q (fs_files fs)).
+Proof. exact push_saved_tree. Qed.
+Print Assumptions C05_saved_tree_is_start_plus_overlay.
